@@ -8,15 +8,17 @@ For every type `X` of `JT/Model/Codec3.lean`
 
 * law (1), re-encode:        `encode_parseX : parseX b = .ok v → encodeX v = b`
 * law (2), parse-of-encode:  `parse_encodeX : WFX v → parseX (encodeX v) = .ok v`
-* `parseX_void`: forgetting the value gives the outcome-only model of `JT/Model/Codec2.lean` (so `parseX` never
-  panics, by the theorems of `JT/Proof/Codec2.lean`).
+* `parseX_void`: forgetting the value gives the outcome-only model of `JT/Model/Codec2.lean`, hence
+  `parseX_ne_panic` by the theorems of `JT/Proof/Codec2.lean` (`P0x9102` and `P0x9207` have no model there: their
+  `parseX_ne_panic` is proved directly).
 
 **Law (1) is FALSE at HEAD for the three types with a BCD time field** (`P0x9201`, `P0x9206`, `T0x1205`): `Parse` accepts
 any six bytes, `BCD2Time` renders the nibble `0xA` as `':'`, and `Time2BCD` deletes every `':'` of the string, so
 `Encode` gives back other bytes (of another length, in general). For these types law (1) carries the hypothesis
 `TimesX v` — no nibble of a time field is `0xA` — which is the exact condition (`reTime_eq_iff`), and a concrete
-accepted body that does not re-encode to itself is exhibited (`reenc_P0x9201_changes`, …, proved by `decide`). Law (2)
-carries the same condition inside `WFX` (`TimeOK`).
+accepted body that does not re-encode to itself is exhibited (`reenc_P0x9201_changes`, `reenc_P0x9206_changes`,
+`reenc_T0x1205_changes`, proved by `decide`; hence `encode_parseX_unconditional_false`). Law (2) carries the same
+condition inside `WFX` (`TimeOK`: six bytes, no nibble `0xA`).
 -/
 namespace JT.Codec3
 open JT
@@ -334,7 +336,7 @@ theorem parse_encodeP0x9207 (v : P0x9207) (h : WFP0x9207 v) : parseP0x9207 (enco
   have hlen : (encodeP0x9207 v).length = 3 := by simp [encodeP0x9207, toBE_length]
   generalize hE : encodeP0x9207 v = E at *
   simp only [encodeP0x9207, toBE_one] at hE
-  have a0 : At E 0 (toBE 2 v.respondSerialNumber) := At.cast _ (by rw [← hE]; at_tac) (by simp [toBE_length])
+  have a0 : At E 0 (toBE 2 v.respondSerialNumber) := At.cast _ (by rw [← hE]; at_tac) (by simp)
   have a1 : At E 2 [UInt8.ofNat v.uploadControl] := At.cast _ (by rw [← hE]; at_tac) (by simp [toBE_length])
   unfold parseP0x9207
   rw [if_neg (by omega), slice_at a0 _ _ rfl (by simp [toBE_length]), Res.bind_ok, idx_at a1 _ rfl, Res.bind_ok,
@@ -400,7 +402,7 @@ theorem parse_encodeP0x8100 (v : P0x8100) (h : WFP0x8100 v) : parseP0x8100 (enco
     simp [encodeP0x8100, toBE_length, fill_self]; omega
   generalize hE : encodeP0x8100 v = E at *
   simp only [encodeP0x8100, toBE_one, fill_self] at hE
-  have a0 : At E 0 (toBE 2 v.respondSerialNumber) := At.cast _ (by rw [← hE]; at_tac) (by simp [toBE_length])
+  have a0 : At E 0 (toBE 2 v.respondSerialNumber) := At.cast _ (by rw [← hE]; at_tac) (by simp)
   have a1 : At E 2 [UInt8.ofNat v.result] := At.cast _ (by rw [← hE]; at_tac) (by simp [toBE_length])
   have a2 : At E 3 v.authCode := At.cast _ (by rw [← hE]; at_tac) (by simp [toBE_length])
   unfold parseP0x8100
@@ -440,7 +442,7 @@ theorem parse_encodeP0x9101 (v : P0x9101) (h : WFP0x9101 v) : parseP0x9101 (enco
   have a0 : At E 0 [UInt8.ofNat v.serverIPLen] := At.cast _ (by rw [← hE]; at_tac) (by simp)
   have a1 : At E 1 v.serverIPAddr := At.cast _ (by rw [← hE]; at_tac) (by simp)
   have a2 : At E (v.serverIPLen + 1) (toBE 2 v.tcpPort) :=
-    At.cast _ (by rw [← hE]; at_tac) (by simp [toBE_length] <;> omega)
+    At.cast _ (by rw [← hE]; at_tac) (by simp <;> omega)
   have a3 : At E (v.serverIPLen + 3) (toBE 2 v.udpPort) :=
     At.cast _ (by rw [← hE]; at_tac) (by simp [toBE_length] <;> omega)
   have a4 : At E (v.serverIPLen + 5) [UInt8.ofNat v.channelNo] :=
@@ -503,7 +505,7 @@ theorem parse_encodeP0x9201 (v : P0x9201) (h : WFP0x9201 v) : parseP0x9201 (enco
   have a0 : At E 0 [UInt8.ofNat v.serverIPLen] := At.cast _ (by rw [← hE]; at_tac) (by simp)
   have a1 : At E 1 v.serverIPAddr := At.cast _ (by rw [← hE]; at_tac) (by simp)
   have a2 : At E (v.serverIPLen + 1) (toBE 2 v.tcpPort) :=
-    At.cast _ (by rw [← hE]; at_tac) (by simp [toBE_length] <;> omega)
+    At.cast _ (by rw [← hE]; at_tac) (by simp <;> omega)
   have a3 : At E (v.serverIPLen + 3) (toBE 2 v.udpPort) :=
     At.cast _ (by rw [← hE]; at_tac) (by simp [toBE_length] <;> omega)
   have a4 : At E (v.serverIPLen + 5) [UInt8.ofNat v.channelNo] :=
@@ -601,7 +603,7 @@ theorem parse_encodeP0x9206 (v : P0x9206) (h : WFP0x9206 v) : parseP0x9206 (enco
   have a0 : At E 0 [UInt8.ofNat v.ftpAddrLen] := At.cast _ (by rw [← hE]; at_tac) (by simp)
   have a1 : At E 1 v.ftpAddr := At.cast _ (by rw [← hE]; at_tac) (by simp)
   have a2 : At E (1 + v.ftpAddrLen) (toBE 2 v.port) :=
-    At.cast _ (by rw [← hE]; at_tac) (by simp [toBE_length] <;> omega)
+    At.cast _ (by rw [← hE]; at_tac) (by simp <;> omega)
   have a3 : At E (1 + v.ftpAddrLen + 2) [UInt8.ofNat v.usernameLen] :=
     At.cast _ (by rw [← hE]; at_tac) (by simp [toBE_length] <;> omega)
   have a4 : At E (1 + v.ftpAddrLen + 3) v.username :=
@@ -866,7 +868,7 @@ theorem t1205Items_void (b : Bytes) : ∀ (n start : Nat), void (t1205Items b n 
   | 0, _ => rfl
   | n + 1, start => by
     unfold t1205Items Codec2.t1205Items
-    simp only [void_bind, void_pure, parseT0x1205Item, Res.bind_ok, Res.pure_eq]
+    simp only [void_bind, parseT0x1205Item, Res.pure_eq]
     cases slice b start (start + 28) with
     | err => rfl
     | panic => rfl
@@ -887,5 +889,43 @@ theorem t1205Items_void (b : Bytes) : ∀ (n start : Nat), void (t1205Items b n 
 theorem parseT0x1205_void (b : Bytes) : void (parseT0x1205 b) = Codec2.parseT0x1205 b := by
   simp only [parseT0x1205, Codec2.parseT0x1205, void_ite, void_bind, void_pure, void_err, bind_unit,
     t1205Items_void]
+
+/-! ### consequences -/
+/-- an accepted body that is re-encoded to other bytes refutes the unconditional law (1) -/
+theorem law1_false {α} (parse : Bytes → Res α) (encode : α → Bytes) (b b' : Bytes)
+    (h : reenc parse encode b = .ok b') (hne : b' ≠ b) : ¬ ∀ b v, parse b = .ok v → encode v = b := by
+  intro H
+  unfold reenc at h
+  cases hp : parse b with
+  | err => rw [hp] at h; cases h
+  | panic => rw [hp] at h; cases h
+  | ok v =>
+    rw [hp] at h
+    injection h with h
+    exact hne (h ▸ H b v hp)
+
+/-- **the unconditional law (1) does not hold for `P0x9201` at HEAD** -/
+theorem encode_parseP0x9201_unconditional_false : ¬ ∀ b v, parseP0x9201 b = .ok v → encodeP0x9201 v = b :=
+  law1_false _ _ _ _ reenc_P0x9201_changes (by decide)
+
+/-- **the unconditional law (1) does not hold for `P0x9206` at HEAD** -/
+theorem encode_parseP0x9206_unconditional_false : ¬ ∀ b v, parseP0x9206 b = .ok v → encodeP0x9206 v = b :=
+  law1_false _ _ _ _ reenc_P0x9206_changes (by decide)
+
+/-- **the unconditional law (1) does not hold for `T0x1205` at HEAD** -/
+theorem encode_parseT0x1205_unconditional_false : ¬ ∀ b v, parseT0x1205 b = .ok v → encodeT0x1205 v = b :=
+  law1_false _ _ _ _ reenc_T0x1205_changes (by decide)
+
+/-- the value-level models never panic either (through `parseX_void` and `JT/Proof/Codec2.lean`) -/
+theorem parseP0x8100_ne_panic (b : Bytes) : parseP0x8100 b ≠ .panic :=
+  void_ne_panic _ (by rw [parseP0x8100_void]; exact Codec2.parseP0x8100_ne_panic b)
+theorem parseP0x9101_ne_panic (b : Bytes) : parseP0x9101 b ≠ .panic :=
+  void_ne_panic _ (by rw [parseP0x9101_void]; exact Codec2.parseP0x9101_ne_panic b)
+theorem parseP0x9201_ne_panic (b : Bytes) : parseP0x9201 b ≠ .panic :=
+  void_ne_panic _ (by rw [parseP0x9201_void]; exact Codec2.parseP0x9201_ne_panic b)
+theorem parseP0x9206_ne_panic (b : Bytes) : parseP0x9206 b ≠ .panic :=
+  void_ne_panic _ (by rw [parseP0x9206_void]; exact Codec2.parseP0x9206_ne_panic b)
+theorem parseT0x1205_ne_panic (b : Bytes) : parseT0x1205 b ≠ .panic :=
+  void_ne_panic _ (by rw [parseT0x1205_void]; exact Codec2.parseT0x1205_ne_panic b)
 
 end JT.Codec3
